@@ -87,6 +87,15 @@ func (s *script) do(op J, f func()) bool {
 }
 
 func (s *script) add(kind string, v any) int {
+	if kind == "array" {
+		// a returned Sequential: what it really is decides how it can be mutated
+		switch v.(type) {
+		case col.ListLike[int]:
+			kind = "list"
+		case col.SetLike[int]:
+			kind = "set"
+		}
+	}
 	s.hs = append(s.hs, hobj{kind, v})
 	return len(s.hs) - 1
 }
@@ -575,193 +584,199 @@ func runC18(tier string, seed int64, out *Out) {
 		s.emit(out, caseID)
 	}
 	maxN := 4
-	// A. constructors from a Go array / Go map: write the argument at every position,
-	//    then mutate the collection with every mutator; B. results of every getter:
-	//    mutate the result at every position, then the collection with every mutator.
-	for n := 0; n <= maxN; n++ {
-		for _, kind := range append(append([]string{}, valueKinds...), keyedKinds...) {
-			keyedK := kind == "catalog" || kind == "map"
-			for variant := 0; variant < 3; variant++ {
-				s := &script{label: fmt.Sprintf("ctor/%s/n%d/v%d", kind, n, variant)}
-				var g, c int
-				if keyedK {
-					if variant == 2 {
-						g = s.goMap(pairContents(r, n))
-						c = s.makeFromMap(kind, g)
+	repsAB := 1
+	if tier == "thorough" {
+		repsAB = 5
+	}
+	for repAB := 0; repAB < repsAB; repAB++ {
+		// A. constructors from a Go array / Go map: write the argument at every position,
+		//    then mutate the collection with every mutator; B. results of every getter:
+		//    mutate the result at every position, then the collection with every mutator.
+		for n := 0; n <= maxN; n++ {
+			for _, kind := range append(append([]string{}, valueKinds...), keyedKinds...) {
+				keyedK := kind == "catalog" || kind == "map"
+				for variant := 0; variant < 3; variant++ {
+					s := &script{label: fmt.Sprintf("ctor/%s/n%d/v%d", kind, n, variant)}
+					var g, c int
+					if keyedK {
+						if variant == 2 {
+							g = s.goMap(pairContents(r, n))
+							c = s.makeFromMap(kind, g)
+						} else {
+							g = s.goPairs(pairContents(r, n))
+							c = s.makeFromArray(kind, g)
+						}
 					} else {
-						g = s.goPairs(pairContents(r, n))
+						g = s.goArray(contents(r, n))
 						c = s.makeFromArray(kind, g)
 					}
-				} else {
-					g = s.goArray(contents(r, n))
-					c = s.makeFromArray(kind, g)
-				}
-				// every position of the argument
-				for i := 0; i < n; i++ {
-					switch s.hs[g].kind {
-					case "goarr":
-						s.do(J{"op": "goWrite", "x": g, "i": i, "v": 70 + i}, func() { s.hs[g].v.([]int)[i] = 70 + i })
-					case "gopairs":
-						as := s.hs[g].v.([]assoc)
-						if variant == 0 {
-							k := as[i].GetKey()
-							s.do(J{"op": "goPairWrite", "x": g, "i": i, "k": k, "v": 70 + i, "how": "object"}, func() { as[i].SetValue(70 + i) })
-						} else {
-							s.do(J{"op": "goPairWrite", "x": g, "i": i, "k": 40 + i, "v": 70 + i, "how": "slot"}, func() {
-								as[i] = col.Association[int, int](notation).Make(40+i, 70+i)
-							})
+					// every position of the argument
+					for i := 0; i < n; i++ {
+						switch s.hs[g].kind {
+						case "goarr":
+							s.do(J{"op": "goWrite", "x": g, "i": i, "v": 70 + i}, func() { s.hs[g].v.([]int)[i] = 70 + i })
+						case "gopairs":
+							as := s.hs[g].v.([]assoc)
+							if variant == 0 {
+								k := as[i].GetKey()
+								s.do(J{"op": "goPairWrite", "x": g, "i": i, "k": k, "v": 70 + i, "how": "object"}, func() { as[i].SetValue(70 + i) })
+							} else {
+								s.do(J{"op": "goPairWrite", "x": g, "i": i, "k": 40 + i, "v": 70 + i, "how": "slot"}, func() {
+									as[i] = col.Association[int, int](notation).Make(40+i, 70+i)
+								})
+							}
+						case "gomap":
+							s.mutate(g, i, r, -1)
 						}
-					case "gomap":
-						s.mutate(g, i, r, -1)
 					}
-				}
-				// every mutator of the collection (self operand for the bulk ones)
-				for m := 0; m < mutatorCount(kind); m++ {
-					s.mutate(c, m, r, c)
-				}
-				// and the argument once more
-				s.mutate(g, 0, r, -1)
-				flush(s)
-			}
-			// results
-			getters := []string{"asArray", "iterArray"}
-			if kind == "array" || kind == "list" || kind == "set" {
-				getters = append(getters, "getValues")
-			}
-			if kind == "list" {
-				getters = append(getters, "removeValuesRange", "concatenate", "concatenateEmpty")
-			}
-			if kind == "set" {
-				getters = append(getters, "and", "or", "sans", "xor")
-			}
-			if keyedK {
-				getters = append(getters, "getKeys", "getValuesFor", "removeValuesFor")
-			}
-			if kind == "catalog" {
-				getters = append(getters, "merge", "mergeEmpty", "extract")
-			}
-			for _, kind2 := range []string{"array", "list", "set", "stack", "queue", "catalog", "map"} {
-				if (kind2 == "catalog" || kind2 == "map") == keyedK {
-					getters = append(getters, "seq:"+kind2)
-				}
-			}
-			for _, gt := range getters {
-				s := &script{label: fmt.Sprintf("result/%s/%s/n%d", kind, gt, n)}
-				var g, c int
-				if keyedK {
-					g = s.goPairs(pairContents(r, n))
-				} else {
-					g = s.goArray(contents(r, n))
-				}
-				c = s.makeFromArray(kind, g)
-				res := -1
-				size := s.size(c)
-				switch gt {
-				case "asArray", "iterArray":
-					res = s.asArray(c)
-				case "getValues":
-					if size == 0 {
-						continue
+					// every mutator of the collection (self operand for the bulk ones)
+					for m := 0; m < mutatorCount(kind); m++ {
+						s.mutate(c, m, r, c)
 					}
-					f := 1 + r.Intn(size)
-					l := f + r.Intn(size-f+1)
-					res = s.getValues(c, f, l)
-				case "removeValuesRange":
-					if size == 0 {
-						continue
-					}
-					f := 1 + r.Intn(size)
-					l := f + r.Intn(size-f+1)
-					res = s.removeValuesRange(c, f, l)
-				case "concatenate", "concatenateEmpty":
-					m2 := r.Intn(3)
-					if gt == "concatenateEmpty" {
-						m2 = 0
-					}
-					g2 := s.goArray(contents(r, m2))
-					c2 := s.makeFromArray("list", g2)
-					if r.Intn(2) == 0 || gt == "concatenateEmpty" {
-						res = s.concatenate(c, c2)
-					} else {
-						res = s.concatenate(c2, c)
-					}
-					if gt == "concatenateEmpty" {
-						// also the mirror image: empty first operand
-						res2 := s.concatenate(c2, c)
-						s.mutate(res2, 1, r, -1)
-					}
-				case "and", "or", "sans", "xor":
-					m2 := r.Intn(4)
-					if n%2 == 0 {
-						m2 = 0
-					}
-					g2 := s.goArray(contents(r, m2))
-					c2 := s.makeFromArray("set", g2)
-					which := map[string]int{"and": 0, "or": 1, "sans": 2, "xor": 3}[gt]
-					res = s.setFn(which, c, c2)
-					res2 := s.setFn(which, c2, c)
-					s.mutate(res2, 0, r, -1)
-				case "getKeys":
-					res = s.getKeys(c)
-				case "getValuesFor", "removeValuesFor":
-					ks := s.getKeys(c)
-					extra := s.goArray([]int{r.Intn(8), r.Intn(8)})
-					el := s.makeFromArray("list", extra)
-					s.mutate(el, 5, r, ks) // AppendValues(keys)
-					if gt == "getValuesFor" {
-						res = s.getValuesFor(c, el)
-					} else {
-						res = s.removeValuesFor(c, el)
-					}
-				case "merge", "mergeEmpty":
-					m2 := r.Intn(3)
-					if gt == "mergeEmpty" {
-						m2 = 0
-					}
-					g2 := s.goPairs(pairContents(r, m2))
-					c2 := s.makeFromArray("catalog", g2)
-					res = s.merge(c, c2)
-					res2 := s.merge(c2, c)
-					s.mutate(res2, 0, r, -1)
-				case "extract":
-					ks := s.getKeys(c)
-					res = s.extract(c, ks)
-				default: // seq:<kind2>: construct kind2 from this collection as a sequence
-					res = s.makeFromSequence(gt[4:], c)
-				}
-				if res < 0 || s.fail != "" {
+					// and the argument once more
+					s.mutate(g, 0, r, -1)
 					flush(s)
-					continue
 				}
-				// mutate the result at every position (Go arrays), or with every mutator
-				rk := s.hs[res].kind
-				if rk == "goarr" || rk == "gopairs" {
-					for i := 0; i < s.size(res); i++ {
-						if rk == "goarr" {
-							s.do(J{"op": "goWrite", "x": res, "i": i, "v": 80 + i}, func() { s.hs[res].v.([]int)[i] = 80 + i })
+				// results
+				getters := []string{"asArray", "iterArray"}
+				if kind == "array" || kind == "list" || kind == "set" {
+					getters = append(getters, "getValues")
+				}
+				if kind == "list" {
+					getters = append(getters, "removeValuesRange", "concatenate", "concatenateEmpty")
+				}
+				if kind == "set" {
+					getters = append(getters, "and", "or", "sans", "xor")
+				}
+				if keyedK {
+					getters = append(getters, "getKeys", "getValuesFor", "removeValuesFor")
+				}
+				if kind == "catalog" {
+					getters = append(getters, "merge", "mergeEmpty", "extract")
+				}
+				for _, kind2 := range []string{"array", "list", "set", "stack", "queue", "catalog", "map"} {
+					if (kind2 == "catalog" || kind2 == "map") == keyedK {
+						getters = append(getters, "seq:"+kind2)
+					}
+				}
+				for _, gt := range getters {
+					s := &script{label: fmt.Sprintf("result/%s/%s/n%d", kind, gt, n)}
+					var g, c int
+					if keyedK {
+						g = s.goPairs(pairContents(r, n))
+					} else {
+						g = s.goArray(contents(r, n))
+					}
+					c = s.makeFromArray(kind, g)
+					res := -1
+					size := s.size(c)
+					switch gt {
+					case "asArray", "iterArray":
+						res = s.asArray(c)
+					case "getValues":
+						if size == 0 {
+							continue
+						}
+						f := 1 + r.Intn(size)
+						l := f + r.Intn(size-f+1)
+						res = s.getValues(c, f, l)
+					case "removeValuesRange":
+						if size == 0 {
+							continue
+						}
+						f := 1 + r.Intn(size)
+						l := f + r.Intn(size-f+1)
+						res = s.removeValuesRange(c, f, l)
+					case "concatenate", "concatenateEmpty":
+						m2 := r.Intn(3)
+						if gt == "concatenateEmpty" {
+							m2 = 0
+						}
+						g2 := s.goArray(contents(r, m2))
+						c2 := s.makeFromArray("list", g2)
+						if r.Intn(2) == 0 || gt == "concatenateEmpty" {
+							res = s.concatenate(c, c2)
 						} else {
-							as := s.hs[res].v.([]assoc)
-							k := as[i].GetKey()
-							s.do(J{"op": "goPairWrite", "x": res, "i": i, "k": k, "v": 80 + i, "how": "object"}, func() { as[i].SetValue(80 + i) })
+							res = s.concatenate(c2, c)
+						}
+						if gt == "concatenateEmpty" {
+							// also the mirror image: empty first operand
+							res2 := s.concatenate(c2, c)
+							s.mutate(res2, 1, r, -1)
+						}
+					case "and", "or", "sans", "xor":
+						m2 := r.Intn(4)
+						if n%2 == 0 {
+							m2 = 0
+						}
+						g2 := s.goArray(contents(r, m2))
+						c2 := s.makeFromArray("set", g2)
+						which := map[string]int{"and": 0, "or": 1, "sans": 2, "xor": 3}[gt]
+						res = s.setFn(which, c, c2)
+						res2 := s.setFn(which, c2, c)
+						s.mutate(res2, 0, r, -1)
+					case "getKeys":
+						res = s.getKeys(c)
+					case "getValuesFor", "removeValuesFor":
+						ks := s.getKeys(c)
+						extra := s.goArray([]int{r.Intn(8), r.Intn(8)})
+						el := s.makeFromArray("list", extra)
+						s.mutate(el, 5, r, ks) // AppendValues(keys)
+						if gt == "getValuesFor" {
+							res = s.getValuesFor(c, el)
+						} else {
+							res = s.removeValuesFor(c, el)
+						}
+					case "merge", "mergeEmpty":
+						m2 := r.Intn(3)
+						if gt == "mergeEmpty" {
+							m2 = 0
+						}
+						g2 := s.goPairs(pairContents(r, m2))
+						c2 := s.makeFromArray("catalog", g2)
+						res = s.merge(c, c2)
+						res2 := s.merge(c2, c)
+						s.mutate(res2, 0, r, -1)
+					case "extract":
+						ks := s.getKeys(c)
+						res = s.extract(c, ks)
+					default: // seq:<kind2>: construct kind2 from this collection as a sequence
+						res = s.makeFromSequence(gt[4:], c)
+					}
+					if res < 0 || s.fail != "" {
+						flush(s)
+						continue
+					}
+					// mutate the result at every position (Go arrays), or with every mutator
+					rk := s.hs[res].kind
+					if rk == "goarr" || rk == "gopairs" {
+						for i := 0; i < s.size(res); i++ {
+							if rk == "goarr" {
+								s.do(J{"op": "goWrite", "x": res, "i": i, "v": 80 + i}, func() { s.hs[res].v.([]int)[i] = 80 + i })
+							} else {
+								as := s.hs[res].v.([]assoc)
+								k := as[i].GetKey()
+								s.do(J{"op": "goPairWrite", "x": res, "i": i, "k": k, "v": 80 + i, "how": "object"}, func() { as[i].SetValue(80 + i) })
+							}
+						}
+					} else {
+						for m := 0; m < mutatorCount(rk); m++ {
+							s.mutate(res, m, r, res)
 						}
 					}
-				} else {
-					for m := 0; m < mutatorCount(rk); m++ {
-						s.mutate(res, m, r, res)
+					// then the collection with every mutator (operand: the result where it fits)
+					for m := 0; m < mutatorCount(kind); m++ {
+						op := -1
+						if _, ok := s.hs[res].v.(col.Sequential[int]); ok && !keyedK {
+							op = res
+						}
+						s.mutate(c, m, r, op)
 					}
-				}
-				// then the collection with every mutator (operand: the result where it fits)
-				for m := 0; m < mutatorCount(kind); m++ {
-					op := -1
-					if _, ok := s.hs[res].v.(col.Sequential[int]); ok && !keyedK {
-						op = res
+					if rk != "goarr" && rk != "gopairs" {
+						s.mutate(res, 0, r, -1)
 					}
-					s.mutate(c, m, r, op)
+					flush(s)
 				}
-				if rk != "goarr" && rk != "gopairs" {
-					s.mutate(res, 0, r, -1)
-				}
-				flush(s)
 			}
 		}
 	}
@@ -775,21 +790,26 @@ func runC18(tier string, seed int64, out *Out) {
 					for rep := 0; rep < 3; rep++ {
 						xs := contents(r, n)
 						sd := r.Int63()
-						build := func(how int) (*script, int) {
+						build := func(how int, reps int) (*script, int) {
 							rr := rand.New(rand.NewSource(sd))
 							s := &script{label: fmt.Sprintf("self/%s/m%d/how%d/n%d", kind, m, how, n)}
 							g := s.goArray(xs)
 							c := s.makeFromArray(kind, g)
 							y := s.operandFor(c, how)
-							if y >= 0 {
-								s.mutate(c, m, rr, y)
+							for i := 0; i < reps && y >= 0; i++ {
 								s.mutate(c, m, rr, y)
 							}
 							return s, c
 						}
-						s, c := build(how)
+						// with the receiver itself as operand a second call would see the changed
+						// receiver, which no copy taken beforehand can imitate: one call then
+						reps := 2
+						if how == 0 {
+							reps = 1
+						}
+						s, c := build(how, reps)
 						if how <= 1 && s.fail == "" {
-							t, tc := build(3)
+							t, tc := build(3, reps)
 							if t.fail == "" && len(t.obs) > 0 && len(s.obs) > 0 {
 								s.twin = J{"recv": c, "want": t.obs[len(t.obs)-1][tc]}
 							}
